@@ -86,7 +86,8 @@ claim('C15', 'SQL effect extraction from string constants (table, WHERE columns,
       'timing, WHEN clause and owner scope, and set_default_* go through UPDATE + commit; every self.pib.<m>() delegation resolves '
       'to an existing keychain method; the signer memo key depends on every argument of tpm.get_signer; key locator defaults to the '
       'certificate, key name and certificate name belong together on every path, a Key / Identity object given as argument is used even when it holds nothing; deletes remove certificates, key row and private key (cascade is inert) and reset the signer cache afterwards; '
-      'no commit between dependent inserts without a compensating delete; TpmFile names files from one encoding. '
+      'no commit between dependent inserts without a compensating delete; the private-key store never replaces an existing key; every step '
+      'of new_key after the private key was stored runs under a handler that rolls back, deletes that private key and re-raises; TpmFile names files from one encoding. '
       'Does not decide histories, crash points or reopen.',
       'sqlite3 trigger/unique-index semantics; no PRAGMA foreign_keys in the package')
 
